@@ -46,7 +46,7 @@ for p in props:
 m = {"version": 1,
      "setup_cmd": "python3 tools/verif.py setup",
      "hooks": {"guard": "AWS_C_COMMON_VERIF", "enable": "-DAWS_C_COMMON_VERIF is passed to every goto-cc unit build; no guarded hook exists in /repo (contracts are re-declarations in /verif/contracts, loop contracts are inserted into a scratch copy on every run)",
-               "baseline_off_cmd": "ctest --test-dir /repo/_build -j8 --timeout 900", "source_commits": [], "add_only": True},
+               "baseline_off_cmd": "cmake --build /repo/_build -j8 >/dev/null && ctest --test-dir /repo/_build -j8 --timeout 900", "source_commits": [], "add_only": True},
      "engines": [{"name": "cbmc-contracts", "path": "tools/verif.py", "serves_properties": [c["property_id"] for c in checks],
                   "kind_free_text": "contract-based deductive verification: goto-cc + goto-instrument --dfcc (function and loop contracts) + cbmc 6.11 on the real sources of /repo"}],
      "checks": checks, "not_applicable": na,
